@@ -160,3 +160,30 @@ Example C02_std_ciphertext :
   end.
 Proof. exact std_ciphertext. Qed.
 Print Assumptions C02_std_ciphertext.
+
+(* ---- pre-computed nonces: sm2_encrypt_pre_compute / sm2_do_encrypt_ex ---- *)
+Theorem C02_batch_inv_correct : forall m, 0 < m -> forall (inv : Z -> Z) (zs : list Z),
+  (2 <= length zs)%nat ->
+  (nth (length zs - 1) (f_list m zs) 0 * inv (nth (length zs - 1) (f_list m zs) 0)) mod m = 1 mod m ->
+  forall i, (i < length zs)%nat ->
+    (nth i zs 0 * nth i (batch_inv m inv zs) 0) mod m = 1 mod m.
+Proof. exact batch_inv_correct. Qed.
+Print Assumptions C02_batch_inv_correct.
+
+(* every one of the 8 slots holds (k_i, affine [k_i]G), for any Jacobian Z coordinates *)
+Theorem C02_enc_pre_compute_eq_partial : forall zs (en : ent) ks en',
+  draw_ks 8 en = Some (ks, en') ->
+  (let Zs := map (fun i => jac_Z ZOps (sm2_mulG ZOps (nth i ks 0)) (nth i zs 1)) (seq 0 8) in
+   let T := nth 7 (f_list sm2_p Zs) 0 in (T * inv_p ZOps T) mod sm2_p = 1 mod sm2_p) ->
+  enc_pre_compute ZOps zs en =
+  Some (map (fun k => (k, (get_x ZOps (sm2_mulG ZOps k), get_y ZOps (sm2_mulG ZOps k)))) ks, en').
+Proof. exact enc_pre_compute_eq_partial. Qed.
+Print Assumptions C02_enc_pre_compute_eq_partial.
+
+(* the ciphertext from a pre-computed slot (k, [k]G) is the one sm2_do_encrypt makes with nonce k *)
+Theorem C02_encrypt_ex_eq_encrypt : forall (NO : numops) (P : point NO) k m,
+  len_ok m = true ->
+  do_encrypt_ex NO P (k, (get_x NO (sm2_mulG NO k), get_y NO (sm2_mulG NO k))) m =
+  match enc_try NO P m k with Some c => ExOk c | None => ExRetry end.
+Proof. exact encrypt_ex_eq_encrypt. Qed.
+Print Assumptions C02_encrypt_ex_eq_encrypt.
